@@ -40,11 +40,15 @@ EXTENDS Integers, Sequences, FiniteSets, TLC
 CONSTANTS AsmMode, FixMode,      \* the mode in force for the state machine
           Base,                  \* skool address of the first instruction
           MaxIns, MaxDirs,       \* instruction lines per file, directives per instruction
+          MaxLines,              \* lines per file
           Kinds,                 \* directive kinds the generator uses
           TokKinds,              \* token kinds the generator uses
           Classes,               \* sequence of line classes Pick chooses from (repeats = weights)
           FlagSets,              \* set of <<pre, ovw, app, fin>> the generator uses
-          TargetOffs             \* operand values offered: Base + offset
+          TargetOffs,            \* operand values offered: Base + offset
+          RemOffs, RemLens,      \* @kind=!a1-a2: a1 = next skool address + offset, a2 = a1 + length - 1
+          LabChoices,            \* subset of BOOLEAN: may a directive carry a label
+          Ctls                   \* control characters used: subset of {"c", "b", " ", "*"}
 
 VARIABLES prog, st, gen
 
@@ -176,7 +180,7 @@ Chain(ds, a, off, rem, src, known) ==
            sz == Size(d.tok)
            ov == d.ovw = 1 /\ src = "post"
            va == IF ov /\ known THEN a + off ELSE -1
-           rem1 == IF ov /\ known THEN rem \cup ((a + off)..(a + off + sz - 1)) ELSE rem
+           rem1 == IF ov /\ known THEN rem \cup { a + off + i : i \in 0..(sz - 1) } ELSE rem
            r == Chain(Tail(ds), a + sz, off, rem1, src, known /\ ov)
        IN [items |-> <<Item(a, d.tok, -1, va, src, d.lab, <<>>, <<>>, FALSE, ov /\ known)>> \o r.items,
            a |-> r.a, rem |-> r.rem, bad |-> r.bad \/ (ov /\ ~known)]
@@ -224,7 +228,7 @@ InsLine(s, line) ==
       a2 == a1 + ItemSize(it)
       known == sa # -1
       off == IF known THEN sa - a1 ELSE 0
-      rem1 == IF ovw /\ known THEN s.removed \cup (sa..(sa + ItemSize(it) - 1)) ELSE s.removed
+      rem1 == IF ovw /\ known THEN s.removed \cup { sa + i : i \in 0..(ItemSize(it) - 1) } ELSE s.removed
       \* the remaining directives that carry an instruction are inserted after it
       later == SelectSeq(IF repl THEN Tail(rest) ELSE rest, LAMBDA d : d.has = 1)
       post == Chain(later, a2, off, rem1, "post", known /\ ovw)
@@ -256,7 +260,7 @@ Step(s, line, am, fm) ==
                               THEN [s EXCEPT !.subs = Append(@, [line EXCEPT !.l = "sub"] @@ [w |-> SkoolKitWeight(line.kind)])]
                               ELSE s
          [] line.l = "rem" -> IF Executed(line.kind, am, fm)
-                              THEN [s EXCEPT !.removed = @ \cup (line.a1..line.a2)]
+                              THEN [s EXCEPT !.removed = @ \cup { line.a1 + i : i \in 0..(line.a2 - line.a1) }]
                               ELSE s
          [] line.l = "org" -> [s EXCEPT !.porg = line.v]
          [] line.l = "lab" -> [s EXCEPT !.plab = line.name]
@@ -333,17 +337,22 @@ GenInit == [ n |-> 0,        \* instruction lines written
              nlab |-> 0, cls |-> "" ]
 
 Tok(k, a, n, t) == [k |-> k, a |-> a, n |-> n, t |-> t]
-Targets == { Base + o : o \in TargetOffs }
-\* tokens offered for the id-th instruction
+\* Tokens offered for the id-th instruction: three kinds and up to three operand values, rotating with id, so
+\* that one step has a few hundred successors (TLC's simulator enumerates them all) yet every kind and operand
+\* comes up.  The immediate of LD A,n / DEFB / DEFS is the id: the bytes tell the instructions apart.
+KindSeq == <<"one", "jp", "ld8", "jr", "defw", "call", "defb", "ldhl", "one", "djnz", "defs", "lda", "defm", "jp">>
+TargetSeq == <<0, 1, 2, 3, 4, 5, 6, 8, 4096>>
+OfferedKinds(id) == { KindSeq[((3 * id + j) % Len(KindSeq)) + 1] : j \in 0..2 } \cap TokKinds
+OfferedTargets(id) == { Base + o : o \in { TargetSeq[((2 * id + j) % Len(TargetSeq)) + 1] : j \in 0..2 } \cap TargetOffs }
 TokPool(id) ==
   UNION { CASE k = "one" -> { Tok("one", id % 8, 0, -1) }
             [] k = "ld8" -> { Tok("ld8", 16 + id, 0, -1) }
-            [] k \in {"jp", "call", "ldhl", "lda", "defw"} -> { Tok(k, 0, 0, t) : t \in Targets \cup {Base + 4096} }
-            [] k \in {"jr", "djnz"} -> { Tok(k, 0, 0, t) : t \in Targets }
-            [] k = "defb" -> { Tok("defb", 32 + id, n, -1) : n \in 1..2 }
+            [] k \in {"jp", "call", "ldhl", "lda", "defw"} -> { Tok(k, 0, 0, t) : t \in OfferedTargets(id) }
+            [] k \in {"jr", "djnz"} -> { Tok(k, 0, 0, t) : t \in { x \in OfferedTargets(id) : x < Base + 100 } }
+            [] k = "defb" -> { Tok("defb", 32 + id, 1 + (id % 2), -1) }
             [] k = "defm" -> { Tok("defm", 0, 3, -1) }
-            [] k = "defs" -> { Tok("defs", 48 + id, n, -1) : n \in {1, 3} }
-          : k \in TokKinds }
+            [] k = "defs" -> { Tok("defs", 48 + id, 1 + 2 * (id % 2), -1) }
+          : k \in OfferedKinds(id) }
 
 Can(c) ==
   CASE c = "ins" -> gen.n < MaxIns
@@ -368,6 +377,7 @@ Emit(line, g) ==
 
 Pick(i) ==
   /\ gen.cls = ""
+  /\ Len(prog) < MaxLines \/ Classes[i] \in {"ins", "end"}
   /\ Can(Classes[i])
   /\ gen' = [gen EXCEPT !.cls = Classes[i]]
   /\ UNCHANGED <<prog, st>>
@@ -377,7 +387,7 @@ SubLine(kind, f, lab, has, tok) ==
 
 InstructionLine(ctl, tok) ==
   /\ gen.cls = "ins"
-  /\ ctl \in (IF gen.first THEN {"c", "b"} ELSE {" ", "*"})
+  /\ ctl \in Ctls \cap (IF gen.first THEN {"c", "b"} ELSE {" ", "*"})
   /\ tok \in TokPool(gen.n)
   /\ LET inplus == gen.blk = "+"
      IN Emit([l |-> "ins", ctl |-> ctl, addr |-> IF inplus THEN -1 ELSE gen.sk, tok |-> tok],
@@ -386,14 +396,14 @@ InstructionLine(ctl, tok) ==
 
 Directive(kind, f, lab, has, tok) ==
   /\ gen.cls = "sub"
-  /\ kind \in Kinds /\ f \in FlagSets /\ lab \in BOOLEAN /\ has \in {0, 1}
+  /\ kind \in Kinds /\ f \in FlagSets /\ lab \in LabChoices /\ has \in {0, 1}
   /\ tok \in (IF has = 1 THEN TokPool(8 + gen.n + gen.pend) ELSE {NoTok})
   /\ Emit(SubLine(kind, f, IF lab THEN "LD" \o ToString(gen.nlab) ELSE "", has, tok),
           [gen EXCEPT !.pend = @ + 1, !.nlab = IF lab THEN @ + 1 ELSE @])
 
 Remove(kind, o, len) ==
   /\ gen.cls = "rem"
-  /\ kind \in Kinds /\ o \in 0..3 /\ len \in 1..3
+  /\ kind \in Kinds /\ o \in RemOffs /\ len \in RemLens
   /\ Emit([l |-> "rem", kind |-> kind, a1 |-> gen.sk + o, a2 |-> gen.sk + o + len - 1], gen)
 
 BlockBegin(kind, plus) ==
@@ -456,17 +466,19 @@ DataVals == {<<201>>, <<7, 8, 9>>, <<513>>, <<Base + 1, 258>>, <<2, 255>>, <<4, 
 
 Next == \/ \E i \in 1..Len(Classes) : Pick(i)
         \/ gen.cls = "ins" /\ \E ctl \in {"c", "b", " ", "*"}, tok \in TokPool(gen.n) : InstructionLine(ctl, tok)
-        \/ gen.cls = "sub" /\ \E kind \in Kinds, f \in FlagSets, lab \in BOOLEAN, has \in {0, 1},
+        \/ gen.cls = "sub" /\ \E kind \in Kinds, f \in FlagSets, lab \in LabChoices, has \in {0, 1},
                                  tok \in TokPool(8 + gen.n + gen.pend) \cup {NoTok} : Directive(kind, f, lab, has, tok)
-        \/ gen.cls = "rem" /\ \E kind \in Kinds, o \in 0..3, len \in 1..3 : Remove(kind, o, len)
+        \/ gen.cls = "rem" /\ \E kind \in Kinds, o \in RemOffs, len \in RemLens : Remove(kind, o, len)
         \/ gen.cls = "begin" /\ \E kind \in Kinds, plus \in {0, 1} : BlockBegin(kind, plus)
         \/ BlockElse \/ BlockEnd \/ Label \/ Keep \/ Gap
         \/ gen.cls = "org" /\ \E v \in {-1, gen.sk, gen.sk + 16} : Org(v)
         \/ gen.cls = "data" /\ \E d \in {"defb", "defs", "defw"}, o \in {-1, 0, 2, 5}, vals \in DataVals : Defx(d, o, vals)
         \/ gen.cls = "bytes" /\ \E vals \in {<<237, 76>>, <<0>>, <<1, 2, 3>>} : BytesDir(vals)
-        \/ gen.cls = "if" /\ \E var \in {"asm", "fix"}, rel \in {">=", "==", "<"}, n \in 1..3, k1 \in Kinds, k2 \in Kinds,
-                                f \in FlagSets, t1 \in TokPool(16 + gen.n), t2 \in TokPool(17 + gen.n), hasno \in BOOLEAN :
-                                If(var, rel, n, SubLine(k1, f, "", 1, t1), hasno, SubLine(k2, <<0, 0, 0, 0>>, "", 1, t2))
+        \/ gen.cls = "if" /\ \E var \in {"asm", "fix"}, rel \in {">=", "==", "<"}, n \in 1..3, k1 \in Kinds,
+                                f \in FlagSets \cap {<<0, 0, 0, 0>>, <<1, 0, 0, 0>>, <<0, 1, 0, 0>>, <<0, 0, 1, 0>>},
+                                t1 \in TokPool(16 + gen.n), hasno \in BOOLEAN :
+                                If(var, rel, n, SubLine(k1, f, "", 1, t1), hasno,
+                                   SubLine(k1, <<0, 0, 0, 0>>, "", 1, Tok("ld8", 99, 0, -1)))
 
 Spec == Init /\ [][Next]_<<prog, st, gen>>
 
@@ -512,7 +524,7 @@ NoModeIsIdentity ==
      /\ (\A k \in 2..Len(prog) : prog[k].l # "org") => \A i \in Items : st.out[i].sa = -1 \/ st.out[i].a = st.out[i].sa
 
 \* Executing more kinds never executes fewer: modes are ordered as documented
-ModesMonotone ==
+ASSUME ModesMonotone ==
   \A k \in AllKinds : \A a1, a2, f1, f2 \in 0..3 :
      (a1 <= a2 /\ f1 <= f2 /\ Executed(k, a1, f1)) => Executed(k, a2, f2)
 
